@@ -123,7 +123,24 @@ func (fr *Frame) execInstr(in ssa.Instruction, st *State) {
 			key := elemKey(es)
 			inner := ArraySort(SInt, es)
 			arr := fx.heapGet(st, key, ArraySort(SInt, inner))
-			fx.heapSet(st, key, Store(arr, r, Term{fmt.Sprintf("((as const %s) %s)", inner, zeroOf(at.Elem()).S), inner}))
+			if isStruct(at.Elem()) {
+				// arrays of struct values: each cell refers to its own (zeroed) element object
+				cells := Term{fmt.Sprintf("((as const %s) 0)", inner), inner}
+				if at.Len() <= 8 {
+					for i := int64(0); i < at.Len(); i++ {
+						obj := fx.alloc(st)
+						fx.zeroStruct(st, obj, at.Elem(), 0)
+						cells = Store(cells, Int(i), obj)
+					}
+				} else {
+					cells = fx.ctx.Fresh("structcells", inner)
+					fx.note("large array of struct values: element objects unconstrained")
+				}
+				arr = fx.heapGet(st, key, ArraySort(SInt, inner))
+				fx.heapSet(st, key, Store(arr, r, cells))
+			} else {
+				fx.heapSet(st, key, Store(arr, r, Term{fmt.Sprintf("((as const %s) %s)", inner, zeroOf(at.Elem()).S), inner}))
+			}
 		default:
 			s := sortOf(elem)
 			if k, ok := fx.eng.localKey(x); ok {
